@@ -4,7 +4,7 @@
     sequences of a net at the level of marking tuples) in proof/C20_Bfs.v. *)
 From Coq Require Import ZArith NArith List Lia.
 Import ListNotations.
-From SK Require Import model.C20_Model proof.C20_Spec proof.C20_Siphon proof.C20_Petri proof.C20_Bfs proof.C20_Build proof.C20_Main proof.C20_Hist proof.C20_Analyzer.
+From SK Require Import model.C20_Model proof.C20_Spec proof.C20_Siphon proof.C20_Petri proof.C20_Bfs proof.C20_Build proof.C20_Main proof.C20_Hist proof.C20_Analyzer proof.C20_Undirected.
 Local Open Scope nat_scope.
 
 (** The index predicate [_is_siphon_indices] is the Petri-net definition: for every network over the
@@ -208,3 +208,13 @@ Theorem C20_analyzer_read :
   Some (AnSets (an_siphons (an_exec k st ops1)) (an_traps (an_exec k st ops1))).
 Proof. exact main_analyzer_read. Qed.
 Print Assumptions C20_analyzer_read.
+
+(** Undirected bipartite inputs (an nx.Graph carrying the same node / edge attributes): _as_bipartite orients every incidence
+    by its role, whichever way the undirected edge is stored ([undirected_view]: all reversed) — the graph the siphon / trap code
+    then works on IS the directed export, so every theorem above applies to undirected inputs unchanged ([run_net] evaluates
+    exactly this composition for the undirected cases). *)
+Theorem C20_undirected_input :
+  forall (n : nat) (rs : list rxn), wf_net n rs ->
+  orient_undirected (undirected_view (bipartite_of n rs)) = bipartite_of n rs.
+Proof. exact main_undirected_input. Qed.
+Print Assumptions C20_undirected_input.
